@@ -608,6 +608,10 @@ TRUNCATED = ['i', 'i ', 'i 2020/01/01', 'i 2020/01/01 00:00:00', 'o', 'O', 'I', 
              '\xef\xbb\xbf', '\xef\xbb', '\x00', '\x00\x00\x00', '\r', '\r\n', ';', '#', '%', '|', '*', ' ', '\t', '  A  $1', '0', '1', '9999/99/99 x',
              '0000/00/00 x', '2020/02/30 x', '1/1 x', '2020.01.01 x', '2020-01-01 x', '20200101 x']
 VERBS_SMALL = [['bal'], ['reg'], ['print'], ['stats']]
+# directives that end right after a quoted symbol or another token their reader steps over
+STALE_EXTRA = ['P 2020/01/01 "AAA"', 'P 2020/01/01 00:00:00 "AAA"', 'N "AAA"', 'D "AAA"', 'C "AAA"', 'C 1 "AAA" =', 'commodity "AAA"', 'A "AAA"',
+               'P 2020/01/01 "A"', 'P "AAA"', 'i 2020/01/01 00:00:00 A', 'apply account "A"', 'alias "A"=', 'bucket "A"', 'year 2020', 'Y 2020',
+               'define "a"', 'tag "a"', 'payee "a"', 'account "a"', 'include "', '= "a"', '~ "a"', '2020/01/01 "p"', '2020/01/01 * "p"']
 
 
 def truncated(ctx, res, binary=None, env=None, sanitizer=False):
@@ -620,11 +624,31 @@ def truncated(ctx, res, binary=None, env=None, sanitizer=False):
             # the same fragment after a complete transaction
             if not sanitizer or nl:
                 cases.append(Case(name + ':after-xact', '2020/01/01 p\n  A  $1\n  B\n' + t + nl, v + NOW, info=dict(t=t)))
+    # what a line means cannot depend on the comment line before it: the same fragment after two
+    # comments of equal length whose bytes differ (digits / letters).  A different outcome means that
+    # the directive read the line buffer beyond its own terminator (bytes the earlier line left there).
+    pairs = []
+    for i, t in enumerate(TRUNCATED + STALE_EXTRA):
+        if '\n' in t or '\x00' in t:
+            continue
+        v = VERBS_SMALL[i % len(VERBS_SMALL)]
+        name = 'directive:' + re.sub(r'[^\w=~@!;#%|*"-]+', '_', t)[:24]
+        pair = [Case(name + ':after-comment', '; ' + fill * 120 + '\n' + t + '\n', v + NOW, info=dict(t=t)) for fill in ('1', 'x')]
+        pairs.append(pair)
+        cases += pair
     run_cases(ctx, cases, 'trunc', binary, env)
     for c in cases:
         res.evaluations += 1
         res.count('truncated-directive')
         add_violations(res, c, judge(c, sanitizer))
+    for a, b in pairs:
+        def seen(c):
+            errs = [re.sub(r'/[^"\s]*/cases/\w+/', '', l) for l in c.result[2].decode('latin-1').split('\n') if l.startswith('Error:')]
+            return (obs_class(c), errs)
+        if seen(a) != seen(b) and not any(obs_class(c).startswith(('signal', 'timeout')) for c in (a, b)):
+            add_violations(res, a, [('reads-beyond-line-end:' + a.construct.replace(':after-comment', ''),
+                                     'the outcome of the line %r depends on the bytes of the comment line before it' % a.info['t'],
+                                     '%s after a comment of digits, %s after a comment of letters' % (seen(a), seen(b)), 'the same outcome')])
     return cases
 
 
@@ -1420,6 +1444,295 @@ def aliases(ctx, res, binary=None, env=None, sanitizer=False):
                                 recursive=cases[40].info['rec'], impl=obs_class(cases[40]), model=model[40]))
 
 
+# ------------------------------------------------------------------------------ accounts called Unknown
+
+UNK_PAYEES = ['Grocer', 'GROCER Ltd', 'The Grocer', 'grocery store', 'Kiosk', 'kiosk 7', 'Baker', 'Bakery Store', 'X']
+UNK_WORDS = ['grocer', 'Grocer', 'GROCER', 'kiosk', 'Baker', 'ery', 'store', 'Ltd', 'o', 'x', 'Grocer Ltd', 'nobody']
+UNK_TARGETS = ['Expenses:Food', 'Expenses:Snacks', 'Misc:Unknown', 'Unknown', 'Expenses:Bread', 'Expenses:Unknown']
+UNK_NAMES = ['Expenses:Unknown', 'Unknown', 'Expenses:Unknown', 'A:B:Unknown', 'Expenses:Unknown:Sub', 'Expenses:unknown', 'Expenses:Unknowns',
+             'Expenses:Known', 'Unknown:Expenses']
+UNK_VERBS = [['bal'], ['print'], ['reg', '--budget', '--monthly'], ['reg', '--forecast-while', 'd<[2021/09/01]'], ['accounts'], ['stats'],
+             ['budget'], ['bal', '--flat', '--no-total'], ['csv'], ['equity'], ['reg', '--strict'], ['bal', '--pedantic'], ['payees'], ['xml']]
+
+
+def unknown_journal(rng):
+    """one journal of the class: `account T / payee REGEX` directives (the table), `account N`
+    directives, automated and periodic transactions and dated transactions whose postings go to
+    accounts called Unknown (or nearly so).
+    -> (text, registrations, expected register accounts)   registration = (who, name, payee, table so far, where)"""
+    lines, regs, rows = [], [], []
+    table = []                      # (start, end, word, target) in file order
+    rules = []                      # accounts of the automated postings read so far, with the rule's place
+    def payee_directive():
+        w = rng.choice(UNK_WORDS)
+        st, en = rng.random() < 0.4, rng.random() < 0.25
+        t = rng.choice(UNK_TARGETS)
+        lines.append('account %s\n    payee %s%s%s\n' % (t, '^' if st else '', w, '$' if en else ''))
+        regs.append(('nopost', t, None, list(table), 'directive'))
+        table.append((st, en, w, t))
+    def account_directive():
+        n = rng.choice(UNK_NAMES)
+        lines.append('account %s\n' % n)
+        regs.append(('nopost', n, None, list(table), 'directive'))
+    def rule():
+        n = rng.choice(UNK_NAMES[:4] + ['Budget:Unknown', 'Budget:Other'])
+        kind = rng.choice(['(%s)  $1', '(%s)  (amount * -1)', '[%s]  $1\n    [Budget:Pool]  $-1'])
+        lines.append('= /^Assets:Cash$/\n    %s\n' % (kind % n))
+        regs.append(('noxact', n, None, list(table), 'automated'))
+        extra = []
+        if 'Budget:Pool]' in kind:
+            regs.append(('noxact', 'Budget:Pool', None, list(table), 'automated'))
+            extra = ['Budget:Pool']
+        rules.append([n] + extra)
+    def periodic():
+        n = rng.choice(UNK_NAMES[:5])
+        lines.append('~ %s\n    %s  $50.00\n    Assets:Cash\n' % (rng.choice(['Monthly', 'Weekly', 'Yearly', 'every 2 months from 2021/01/01']), n))
+        regs.append(('noxact', n, None, list(table), 'periodic'))
+        regs.append(('noxact', 'Assets:Cash', None, list(table), 'periodic'))
+    def dated(day):
+        payee = rng.choice(UNK_PAYEES)
+        n = rng.choice(UNK_NAMES)
+        lines.append('2021/06/%02d %s\n    %s  $%d.00\n    Assets:Cash\n' % (day, payee, n, rng.randint(1, 40)))
+        regs.append(('dated', n, payee, list(table), 'dated'))
+        regs.append(('dated', 'Assets:Cash', payee, list(table), 'dated'))
+        rows.append(len(regs) - 2)
+        rows.append(len(regs) - 1)
+        # every rule read so far matches the one posting to Assets:Cash and adds its postings,
+        # registered again without a transaction, against the table as it is now
+        for accts in rules:
+            for a in accts:
+                regs.append(('noxact', a, None, list(table), 'generated'))
+                rows.append(len(regs) - 1)
+    for _ in range(rng.choice([0, 1, 1, 2, 3])):
+        payee_directive()
+    shape = rng.random()
+    steps = []
+    if shape < 0.75:
+        steps += ['rule'] * rng.choice([0, 1, 1, 2]) + ['periodic'] * rng.choice([0, 1, 1]) + ['account'] * rng.choice([0, 0, 1])
+        rng.shuffle(steps)
+    steps += ['dated'] * rng.randint(1, 3)
+    if rng.random() < 0.3:
+        # directives that come late: they apply to what follows only
+        steps.insert(rng.randrange(len(steps) + 1), 'payee')
+        steps += [rng.choice(['rule', 'periodic', 'account']), 'dated']
+    day = 0
+    for st in steps:
+        if st == 'dated':
+            day += 1
+            dated(day)
+        else:
+            dict(rule=rule, periodic=periodic, account=account_directive, payee=payee_directive)[st]()
+    return '\n'.join(lines), regs, rows
+
+
+def unknown_accounts(ctx, res, binary=None, env=None, sanitizer=False):
+    """journal_t::register_account, the payee look-up for accounts whose last segment is Unknown:
+    every kind of registrant (account directive, posting of an automated / periodic / dated
+    transaction, posting generated by an automated transaction) against tables of 0-4 entries"""
+    rng = ctx.rng
+    cases, lines, plans = [], [], []
+    for k in range(ctx.scale(120, 800)):
+        text, regs, rows = unknown_journal(rng)
+        # the class names the registrants WITHOUT a transaction that meet a non-empty table at an account
+        # called Unknown; failing those, whether an account directive or only dated postings do
+        hit = [r for r in regs if r[3] and r[1].split(':')[-1] == 'Unknown']
+        wheres = sorted({r[4] for r in hit if r[0] == 'noxact'})
+        cls = '+'.join(wheres) if wheres else 'directive' if any(r[0] == 'nopost' for r in hit) else 'dated' if hit else 'no-look-up'
+        first = len(lines)
+        for i, (who, name, payee, table, where) in enumerate(regs):
+            lines.append(lib.sx(['unknown', 'u%d.%d' % (k, i), who, name, payee.encode().hex() if payee else '-',
+                                 [[st, en, w.encode().hex(), t] for st, en, w, t in table]]))
+        main = Case('unknown-account-payee:' + cls, text, ['reg', '--format', '%(account)\n'] + NOW,
+                    info=dict(k=k, first=first, n=len(regs), rows=rows, regs=regs, main=True))
+        cases.append(main)
+        for v in rng.sample(UNK_VERBS, 2):
+            cases.append(Case('unknown-account-payee:' + cls, text, v + NOW, info=dict(k=k, first=first, n=len(regs), regs=regs, main=False)))
+    run_cases(ctx, cases, 'unk', binary, env)
+    model = lib.run_model('C11', lines) if not sanitizer else None
+    for c in cases:
+        res.evaluations += 1
+        res.count('unknown:' + c.construct.split(':', 1)[1])
+        add_violations(res, c, judge(c, sanitizer))
+        if sanitizer:
+            continue
+        got = obs_class(c)
+        ml = [l.split(' ', 1)[1] for l in model[c.info['first']:c.info['first'] + c.info['n']]]
+        null = [i for i, l in enumerate(ml) if l == 'NullDeref']
+        if null:
+            # the model reads the null pointer for one of the registrations: no report is predicted
+            if not (got.startswith('signal') or got == 'timeout'):
+                res.disagreements.append(dict(name='C11/unknown-account-payee', case=c.journal[:600], impl=got, model='NullDeref at %s' % (c.info['regs'][null[0]],)))
+            continue
+        if got.startswith('signal') or got == 'timeout':
+            res.disagreements.append(dict(name='C11/unknown-account-payee', case=c.journal[:600], impl=got, model='every registration answered'))
+            continue
+        if not c.info['main']:
+            continue
+        res.traces += 1
+        if any(r[3] and r[1].split(':')[-1] == 'Unknown' for r in c.info['regs']):
+            res.nontrivial.add('unknown:' + c.journal)
+        want = [ml[i].split(' ', 1)[1] for i in c.info['rows']]
+        have = [l.strip().strip('()[]') for l in c.result[1].decode('latin-1').split('\n') if l.strip()]
+        if got != 'ok' or want != have:
+            res.disagreements.append(dict(name='C11/unknown-account-payee', case=c.journal[:600], impl='%s %s' % (got, have), model=want))
+    if cases and len(res.samples) < 10:
+        c = cases[0]
+        res.samples.append(dict(construct=c.construct, journal=c.journal[:300], impl=obs_class(c)))
+
+
+# ------------------------------------------------------------------------------ control characters in names
+
+CTL = [1, 2, 7, 8, 0x1b, 0x1f, 0x7f]
+
+
+def control_names(rng, n):
+    out = []
+    for c in CTL:
+        ch = chr(c)
+        for k in (1, 2, 3, 5, 30):
+            out += [ch * k + ':B', 'A' + ch * k + ':B', 'Assets:' + ch * k, 'Abcdefghij' + ch * k + ':Klmnopqrst:Uvwxyz' + ch]
+    while len(out) < n:
+        segs = []
+        for _ in range(rng.choice([1, 2, 2, 3])):
+            segs.append(''.join(chr(rng.choice(CTL)) if rng.random() < 0.5 else rng.choice('AbCxyz') for _ in range(rng.randint(1, 12))))
+        out.append(':'.join(segs))
+    return out
+
+
+def control_characters(ctx, res, binary=None, env=None, sanitizer=False):
+    """names (account, payee) that contain control characters, in the reports that fit them into a
+    column: mk_wcwidth answers -1 for such a character and unistring::width adds the answers up"""
+    rng = ctx.rng
+    cases, lines = [], []
+    for i, name in enumerate(control_names(rng, ctx.scale(200, 1200))):
+        where = ('account', 'payee')[i % 2] if i >= 140 else ('account' if i % 4 != 3 else 'payee')
+        w = (5, 10, 22, 40)[i % 4]
+        if where == 'account':
+            j = '2020/01/01 p\n    %s  10 EUR\n    C\n' % name
+        else:
+            j = '2020/01/01 %s\n    A:B  10 EUR\n    C\n' % name
+        args = ['reg', '--account-width', str(w), '--payee-width', str(w)] + NOW
+        lines.append(lib.sx(['width', 'w%d' % i, name.encode('latin-1').hex(), w]))
+        cases.append(Case('control-characters-in-name:' + where, j, args, info=dict(name=name, w=w, line=len(lines) - 1)))
+        v = [['bal'], ['print'], ['reg'], ['reg', '--wide'], ['bal', '--flat'], ['csv'], ['reg', '--truncate', 'leading'], ['reg', '--truncate', 'middle'],
+             ['payees'], ['accounts'], ['cleared']][i % 11]
+        cases.append(Case('control-characters-in-name:' + where, j, v + NOW, info=dict(name=name)))
+    run_cases(ctx, cases, 'ctl', binary, env)
+    model = lib.run_model('C11', lines) if not sanitizer else None
+    for c in cases:
+        res.evaluations += 1
+        res.count(c.construct)
+        add_violations(res, c, judge(c, sanitizer))
+        if sanitizer or 'line' not in c.info:
+            continue
+        m = re.search(r'width=(\d+) cut=(\d)', model[c.info['line']])
+        width, cut = int(m.group(1)), m.group(2) == '1'
+        name = c.info['name']
+        res.traces += 1
+        res.nontrivial.add('ctl:%s:%d' % (name, c.info['w']))
+        got = obs_class(c)
+        if width > len(name):
+            continue            # the sum has wrapped around: the offsets truncate() computes from it mean nothing
+        if got != 'ok' or (not cut and name.encode('latin-1') not in c.result[1]):
+            res.disagreements.append(dict(name='C11/name-width', case=dict(name=name, columns=c.info['w']), impl=got, model=model[c.info['line']]))
+
+
+# ------------------------------------------------------------------------------ account functions on the root account
+
+ACCOUNT_SCOPE_EXPRS = ['account("A")', 'account("A").total', 'account("A").amount', 'account(/A/).total', 'account(/A/).amount', 'account("A:B").total',
+                       'account("Nope")', 'account("Nope").total', 'account(/Nope/).total', 'account("").total', 'account(1)', 'account()',
+                       'parent', 'parent.total', 'parent.account', 'parent.parent.account', 'parent.parent.total', 'depth', 'depth_spacer',
+                       'partial_account', 'partial_account(true)', 'account_base', 'note', 'addr', 'any(true)', 'all(true)', 'count', 'subcount',
+                       'latest', 'earliest', 'latest_cleared', 'earliest_checkin', 'latest_checkout', 'cost', 'N', 'O', 'u', 'l', 'T', 'total', 'amount',
+                       'account("A").parent.total', 'account("A").account("C").total', 'account("A").depth', 'account(account).total']
+
+
+def account_scope_on_root(ctx, res, binary=None, env=None, sanitizer=False):
+    """the balance report evaluates its format once more on the ROOT account (the total line), which
+    has no parent and an empty name: every function of the account scope there and on ordinary accounts"""
+    j = '2020/01/01 p\n    A:B  10 EUR\n    A:D  5 EUR\n    C\n'
+    cases = []
+    for e in ACCOUNT_SCOPE_EXPRS:
+        for extra, tag in (([], 'with-total'), (['--no-total'], 'no-total'), (['--flat'], 'with-total'), (['--empty', '--depth', '1'], 'with-total')):
+            cases.append(Case('account-scope-function:' + tag, j, ['bal', '--format', '%%(%s)\\n' % e] + extra + NOW, info=dict(e=e)))
+        cases.append(Case('account-scope-function:with-total', j, ['bal', '--display', e] + NOW, info=dict(e=e)))
+        cases.append(Case('account-scope-function:accounts', j, ['accounts', '--limit', 'true', '--display', e] + NOW, info=dict(e=e)))
+        cases.append(Case('account-scope-function:with-total', j, ['budget', '--format', '%%(%s)\\n' % e] + NOW, info=dict(e=e)))
+    run_cases(ctx, cases, 'ascope', binary, env)
+    for c in cases:
+        res.evaluations += 1
+        res.count(c.construct)
+        add_violations(res, c, judge(c, sanitizer))
+
+
+# ------------------------------------------------------------------------------ deferred postings of rejected transactions
+
+def deferred_postings(ctx, res, binary=None, env=None, sanitizer=False):
+    """a deferred posting `<B>` is parked in its account until the end of the file; transactions that
+    are refused at every stage of journal_t::add_xact, with and without such a posting"""
+    ways = [
+        ('accepted', '', '2021/06/01 p\n    <B>  10 EUR\n    A\n'),
+        ('unbalanced', '', '2021/06/01 p\n    <B>  10 EUR\n    A  5 EUR\n'),
+        ('auto-assert', '= /^A$/\n    assert false\n\n', '2021/06/01 p\n    <B>  10 EUR\n    A\n'),
+        ('auto-assert-on-deferred', '= /^B$/\n    assert amount < 5\n\n', '2021/06/01 p\n    <B>  10 EUR\n    A\n'),
+        ('auto-check', '= /^A$/\n    check false\n\n', '2021/06/01 p\n    <B>  10 EUR\n    A\n'),
+        ('uuid-mismatch', '2021/05/01 q\n    ; UUID: u1\n    B  10 EUR\n    A\n\n', '2021/06/01 p\n    ; UUID: u1\n    <B>  11 EUR\n    A\n'),
+        ('uuid-equal', '2021/05/01 q\n    ; UUID: u1\n    B  10 EUR\n    A\n\n', '2021/06/01 p\n    ; UUID: u1\n    <B>  10 EUR\n    A\n'),
+        ('uuid-both-deferred', '2021/05/01 q\n    ; UUID: u1\n    <B>  10 EUR\n    A\n\n', '2021/06/01 p\n    ; UUID: u1\n    <B>  12 EUR\n    A\n'),
+        ('tag-assert', 'tag Foo\n    assert value =~ /x/\n\n', '2021/06/01 p\n    ; Foo: bar\n    <B>  10 EUR\n    A\n'),
+        ('post-tag-assert', 'tag Foo\n    assert value =~ /x/\n\n', '2021/06/01 p\n    <B>  10 EUR\n    ; Foo: bar\n    A\n'),
+        ('balance-assertion', '', '2021/06/01 p\n    <B>  10 EUR\n    A  -10 EUR = 3 EUR\n'),
+        ('auto-generated-deferred', '= /^A$/\n    <G>  1 EUR\n    H  -1 EUR\n    assert false\n\n', '2021/06/01 p\n    B  10 EUR\n    A\n'),
+        ('two-deferred', '= /^A$/\n    assert false\n\n', '2021/06/01 p\n    <B>  10 EUR\n    <B:C>  2 EUR\n    A\n'),
+    ]
+    tails = ['', '\n2021/07/01 later\n    B  1 EUR\n    A\n', '\n2021/07/01 later\n    <B>  1 EUR\n    A\n']
+    cases = []
+    for how, head, x in ways:
+        for ti, tail in enumerate(tails):
+            for v in (['bal'], ['reg'], ['print'], ['bal', '--pedantic'], ['stats']):
+                cases.append(Case('deferred-posting:' + how, head + x + tail, v + NOW, info=dict(how=how)))
+        # the same transaction without the deferral: the control
+        cases.append(Case('deferred-posting-control:' + how, head + x.replace('<B>', 'B').replace('<B:C>', 'B:C').replace('<G>', 'G') + tails[1], ['bal'] + NOW, info=dict(how=how)))
+    run_cases(ctx, cases, 'defer', binary, env)
+    for c in cases:
+        res.evaluations += 1
+        res.count(c.construct.split(':')[0])
+        add_violations(res, c, judge(c, sanitizer))
+
+
+# ------------------------------------------------------------------------------ date formats longer than the buffer
+
+def long_date_formats(ctx, res, binary=None, env=None, sanitizer=False):
+    """--date-format / --datetime-format / format_date(d, FMT) whose result is around and beyond the 127
+    characters temporal_io_t::format has room for: the date text is what strftime defines for the
+    format, or the run ends with an error"""
+    d = datetime.date(2020, 3, 7)
+    j = '2020/03/07 p\n    A  10 EUR\n    C\n'
+    fmts = []
+    for unit, size in (('%Y', 4), ('%Y-%m-%d ', 11), ('%A, %d %B %Y; ', None), ('x', 1), ('%%', 1)):
+        for total in (120, 124, 126, 127, 128, 129, 132, 256, 1000):
+            k = max(1, total // (size or 20))
+            fmts.append(unit * k)
+    cases = []
+    for f in fmts:
+        want = d.strftime(f)
+        cases.append(Case('long-date-format:option', j, ['reg', '--date-format', f, '--format', '%(format_date(date))\\n'] + NOW, info=dict(want=want)))
+        if '"' not in f:
+            cases.append(Case('long-date-format:function', j, ['reg', '--format', '%%(format_date(date, "%s"))\\n' % f] + NOW, info=dict(want=want)))
+    run_cases(ctx, cases, 'datefmt', binary, env)
+    for c in cases:
+        res.evaluations += 1
+        res.count('long-date-format')
+        vs = judge(c, sanitizer)
+        if not vs and obs_class(c) == 'ok':
+            rows = c.result[1].decode('latin-1').rstrip('\n').split('\n')         # one row per posting, the same date on each
+            have = rows[0] if all(r == rows[0] for r in rows) else '\n'.join(rows)
+            if have != c.info['want']:
+                vs.append(('date-text-not-strftime:' + c.construct, 'the date printed is not what strftime gives for the format (%d characters expected)' % len(c.info['want']),
+                           have[:200], c.info['want'][:200] + ' - or an error'))
+        add_violations(res, c, vs)
+
+
 # ------------------------------------------------------------------------------ mutation stream
 
 _CORPUS = None
@@ -1873,7 +2186,7 @@ def run(ctx, light=False):
     phases = [('buffers', lambda: buffers(ctx, res, sites)), ('escapes', lambda: escapes(ctx, res)),
               ('nesting', lambda: nesting(ctx, res)), ('division', lambda: division(ctx, res)),
               ('periods', lambda: periods(ctx, res)), ('truncated', lambda: truncated(ctx, res)),
-              ('long_tokens', lambda: long_tokens(ctx, res)), ('formats', lambda: formats(ctx, res)), ('aliases', lambda: aliases(ctx, res)), ('uuid_duplicates', lambda: uuid_duplicates(ctx, res)), ('definition_recursion', lambda: definition_recursion(ctx, res)), ('option_values', lambda: option_values(ctx, res)),
+              ('long_tokens', lambda: long_tokens(ctx, res)), ('formats', lambda: formats(ctx, res)), ('aliases', lambda: aliases(ctx, res)), ('unknown_accounts', lambda: unknown_accounts(ctx, res)), ('control_characters', lambda: control_characters(ctx, res)), ('account_scope_on_root', lambda: account_scope_on_root(ctx, res)), ('deferred_postings', lambda: deferred_postings(ctx, res)), ('long_date_formats', lambda: long_date_formats(ctx, res)), ('uuid_duplicates', lambda: uuid_duplicates(ctx, res)), ('definition_recursion', lambda: definition_recursion(ctx, res)), ('option_values', lambda: option_values(ctx, res)),
               ('query_keywords', lambda: query_keywords(ctx, res)), ('rule_predicates', lambda: rule_predicates(ctx, res)),
               ('commodity_values', lambda: commodity_values(ctx, res)), ('repetition', lambda: repetition(ctx, res)), ('early_options', lambda: early_options(ctx, res)),
               ('function_arguments', lambda: function_arguments(ctx, res)),
@@ -1901,6 +2214,11 @@ def search(ctx, broken):
         long_tokens(ctx, r)
         formats(ctx, r)
         aliases(ctx, r)
+        unknown_accounts(ctx, r)
+        control_characters(ctx, r)
+        account_scope_on_root(ctx, r)
+        deferred_postings(ctx, r)
+        long_date_formats(ctx, r)
         uuid_duplicates(ctx, r)
         definition_recursion(ctx, r)
         option_values(ctx, r)
